@@ -304,7 +304,7 @@ def apalache_leg(chk, what="AP_Kernels"):
     (Apalache/Z3), plus one deliberately wrong contract that must be refuted."""
     import subprocess
     import time
-    queries = [("AP_Mont.tla", None, "MontContract", True), ("AP_Mont.tla", None, "MontTooTight", False),
+    queries = [("AP_Mont.tla", None, "MontContract", True), ("AP_Mont.tla", None, "MontMagnitude", True), ("AP_Mont.tla", None, "MontTooTight", False),
                ("AP_Kernels.tla", "NextPR64", "PR64Contract", True), ("AP_Kernels.tla", "NextPR32", "PR32Contract", True),
                ("AP_Kernels.tla", "NextDec", "DecContract", True)]
     ok = 0
